@@ -397,6 +397,17 @@ def run(ctx: Ctx):
     refus = [n for n in own_nodes(asap) if isinstance(n, ast.If) and "scheduled" in norm(n.test)
              and any(isinstance(s, ast.Return) and isinstance(s.value, ast.Constant) and s.value.value is False for s in n.body)]
     ok = bool(refus) and all("not " in norm(n.test) for n in refus)
+    if not refus:
+        # the comprehension form: all(not t or t.get("scheduled", ..) for t in ..)
+        for n in own_nodes(asap):
+            if isinstance(n, ast.Return) and isinstance(n.value, ast.Call) and norm(n.value.func) == "all" \
+                    and n.value.args and isinstance(n.value.args[0], ast.GeneratorExp):
+                elt = n.value.args[0].elt
+                last_v = elt.values[-1] if isinstance(elt, ast.BoolOp) and isinstance(elt.op, ast.Or) else elt
+                rest = elt.values[:-1] if isinstance(elt, ast.BoolOp) and isinstance(elt.op, ast.Or) else []
+                if isinstance(last_v, ast.Call) and norm(last_v).replace('"', "'").find(".get('scheduled'") > 0 and \
+                        all(isinstance(r, ast.UnaryOp) and isinstance(r.op, ast.Not) and isinstance(r.operand, ast.Name) for r in rest):
+                    ok = True
     ctx.ob("R04.4", f"{asap.qual}: refuses while a predecessor is unscheduled", asap, ok,
            "returns False when a predecessor is not scheduled" if ok else "forward readiness no longer refuses on an unscheduled predecessor",
            key="R04.4|asap|refusal")
@@ -407,6 +418,23 @@ def run(ctx: Ctx):
            "backward readiness does not look at every successor's scheduled flag", key="R04.4|alap|reads")
     last = [n for n in own_nodes(alap) if isinstance(n, ast.Return)][-1]
     ok = "all(" in norm(last.value) and "scheduled" in norm(last.value)
+    if not ok and isinstance(last.value, ast.Constant) and last.value.value is True:
+        # the loop form: every successor is visited and the first unscheduled one answers False
+        src = {t.id for n in own_nodes(alap) if isinstance(n, ast.Assign) and "_getSuccessors" in norm(n.value)
+               for t in n.targets if isinstance(t, ast.Name)}
+        for n in own_nodes(alap):
+            if not (isinstance(n, ast.For) and ("_getSuccessors" in norm(n.iter) or
+                                                 (isinstance(n.iter, ast.Name) and n.iter.id in src))):
+                continue
+            if n.orelse or any(isinstance(b, (ast.Break, ast.Continue)) for s in n.body for b in ast.walk(s)):
+                continue
+            refuse = [s for s in n.body if isinstance(s, ast.If) and "scheduled" in norm(s.test)
+                      and isinstance(s.test, ast.UnaryOp) and isinstance(s.test.op, ast.Not) and not s.orelse
+                      and len(s.body) == 1 and isinstance(s.body[0], ast.Return)
+                      and isinstance(s.body[0].value, ast.Constant) and s.body[0].value.value is False]
+            others = [b for s in n.body if s not in refuse for b in ast.walk(s) if isinstance(b, ast.Return)]
+            if refuse and not others:
+                ok = True
     ctx.ob("R04.4", f"{alap.qual}: {norm(last)[:70]}", (alap, last), ok,
            "ready only when all successors are scheduled" if ok else "backward readiness is not 'all successors scheduled'",
            key="R04.4|alap|all")
@@ -470,37 +498,75 @@ def run(ctx: Ctx):
     gr = cfg_of(rdy)
     fr = facts_of(rdy)
     loops_r = [l for l in own_nodes(rdy) if isinstance(l, ast.For) and "getAllDependencies" in norm(l.iter)]
-    if len(loops_r) != 1:
+    import re as _re
+
+    def clause_verdict(cl):
+        """(ok, judged by leaves) for one disjunction of (text, polarity) literals: every literal is `v missing`, `v's own flag`
+        or `all leaves of v`, for ONE variable v, and at least one of them is present"""
+        if not cl:
+            return (False, False)
+        var, own, leaves = set(), False, False
+        for (t, p_) in cl:
+            tt = t.replace('"', "'")
+            m = _re.match(r"^(\w+)\.get\('scheduled'", tt)
+            if p_ and m:
+                var.add(m.group(1)); own = True
+                continue
+            m = _re.match(r"^all\(.*\.get\('scheduled'.* in (\w+)\.allLeaves\(\)\)$", tt)
+            if p_ and m and " if " not in tt:
+                var.add(m.group(1)); leaves = True
+                continue
+            if (not p_) and _re.match(r"^\w+$", tt):
+                var.add(tt)
+                continue
+            return (False, False)
+        return (len(var) == 1, leaves and not own)
+
+    comp = []
+    if not loops_r:
+        # comprehension form: return all(<clause> for v in <predecessors>)
+        for n in own_nodes(rdy):
+            if isinstance(n, ast.Return) and isinstance(n.value, ast.Call) and norm(n.value.func) == "all" \
+                    and n.value.args and isinstance(n.value.args[0], ast.GeneratorExp) and len(n.value.args[0].generators) == 1 \
+                    and not n.value.args[0].generators[0].ifs:
+                comp.append(n)
+    if len(loops_r) != 1 and len(comp) != 1:
         raise AnchorMissing(f"_asapReadyForScheduling: {len(loops_r)} loops over getAllDependencies")
-    hdr = gr.node_of(loops_r[0])
-    dom_r = gr.dominators()
     n_back = 0
     uses_leaves = False
-    for (a, lbl) in gr.pred[hdr.id]:
-        na = gr.nodes[a]
-        if hdr.id not in dom_r.get(a, ()) or a == hdr.id:
-            continue                      # the edge that enters the loop
-        n_back += 1
-        fs = fr.along(na, lbl)
-        def own_flag(t, p_):
-            return p_ and ".get('scheduled'" in t.replace('"', "'") and t.startswith("t.")
-
-        def all_leaves(t, p_):
-            # "every leaf below t is scheduled": as good as t's own flag when the roll-up closes a container in the same round
-            # in which its last leaf is placed -- the roll-up rules are evaluated below as obligations of C04 for that reason
-            tt = t.replace('"', "'")
-            return p_ and tt.startswith("all(") and ".get('scheduled'" in tt and "t.allLeaves()" in tt and " if " not in tt
-        ok = any((any(own_flag(t, p_) or all_leaves(t, p_) for (t, p_) in cl) or all((not p_) and t == "t" for (t, p_) in cl))
-                 and all(own_flag(t, p_) or all_leaves(t, p_) or ((not p_) and t == "t") for (t, p_) in cl)
-                 for cl in fs if cl)
-        if ok and not any(any(own_flag(t, p_) for (t, p_) in cl) and all(own_flag(t, p_) or ((not p_) and t == "t") for (t, p_) in cl) for cl in fs):
-            uses_leaves = True
-        ctx.ob("R04.7", f"{rdy.qual}: iteration ends at line {getattr(na.ast, 'lineno', '?')} with the predecessor's own scheduled flag established",
-               (rdy, na.ast), ok,
-               "next edge is examined only when this predecessor is missing or itself marked scheduled" if ok else
-               "an iteration of the readiness loop can complete without the predecessor's own `scheduled` flag being set (e.g. a "
+    if comp:
+        elt = comp[0].value.args[0].elt
+        lits = elt.values if isinstance(elt, ast.BoolOp) and isinstance(elt.op, ast.Or) else [elt]
+        cl = [(norm(l.operand), False) if isinstance(l, ast.UnaryOp) and isinstance(l.op, ast.Not) else (norm(l), True) for l in lits]
+        src_ok = "call:getAllDependencies" in full(ctx.dep.summary(rdy).ret)
+        ok, lv = clause_verdict(cl)
+        ok = ok and src_ok
+        uses_leaves = lv
+        n_back = 1
+        ctx.ob("R04.7", f"{rdy.qual}: ready iff every predecessor satisfies {norm(elt)[:60]}", (rdy, comp[0]), ok,
+               "each predecessor is missing or itself marked scheduled" if ok else
+               "readiness can be granted without the predecessor's own `scheduled` flag being set (e.g. a "
                "container judged by its leaves): the task becomes ready before the predecessor's end date exists and the bound ignores it",
                key=key_of("R04.7", rdy, None, "own flag"))
+    else:
+        hdr = gr.node_of(loops_r[0])
+        dom_r = gr.dominators()
+        for (a, lbl) in gr.pred[hdr.id]:
+            na = gr.nodes[a]
+            if hdr.id not in dom_r.get(a, ()) or a == hdr.id:
+                continue                      # the edge that enters the loop
+            n_back += 1
+            fs = fr.along(na, lbl)
+            vs = [clause_verdict(cl) for cl in fs if cl]
+            ok = any(v[0] for v in vs)
+            if ok and not any(v[0] and not v[1] for v in vs):
+                uses_leaves = True
+            ctx.ob("R04.7", f"{rdy.qual}: iteration ends at line {getattr(na.ast, 'lineno', '?')} with the predecessor's own scheduled flag established",
+                   (rdy, na.ast), ok,
+                   "next edge is examined only when this predecessor is missing or itself marked scheduled" if ok else
+                   "an iteration of the readiness loop can complete without the predecessor's own `scheduled` flag being set (e.g. a "
+                   "container judged by its leaves): the task becomes ready before the predecessor's end date exists and the bound ignores it",
+                   key=key_of("R04.7", rdy, None, "own flag"))
     if not n_back:
         raise AnchorMissing("_asapReadyForScheduling: no back edge of the readiness loop found")
     ctx.floor("R04.7", 1)
@@ -594,6 +660,11 @@ def run(ctx: Ctx):
                            "a dependency edge on one of them is taken for (or dropped as a duplicate of) an edge on the other")
     from .c16 import scenario_default_rule
     scenario_default_rule(ctx, "R04.8")
+    # ... and no literal scenario index where the dates of predecessors / containers are read (the default, once bound, is a literal)
+    from .c16 import scenario_index_rule
+    scenario_index_rule(ctx, "R04.8", only={"Project._updateContainerTaskStatus", "TaskScenario.schedule", "TaskScenario._asapReadyForScheduling",
+                                            "TaskScenario._alapReadyForScheduling", "TaskScenario._getSuccessors",
+                                            "Project._propagateContainerEndDates"})
     ctx.floor("R04.1", 5)
     ctx.floor("R04.2", 12)
     ctx.floor("R04.3", 2)
